@@ -331,6 +331,18 @@ Proof.
   destruct (HB l E) as [e He]. rewrite (lend_chain _ _ _ He). eapply chain_pos_le; eauto.
 Qed.
 
+(* at the top of a loop, without a best line the candidate prefix is empty (every earlier iteration restored it) *)
+Lemma best_end_no_best : forall w, has_best w = false -> best_end w = w_start w.
+Proof.
+  intros w H. unfold best_end, has_best in *. destruct (s_best (w_sc w)) as [[|a l]|]; [reflexivity|discriminate|reflexivity].
+Qed.
+Lemma JT_no_best_alt : forall n w, JT n w -> has_best w = false -> s_alt (w_sc w) = [].
+Proof.
+  intros n w (HJ & HA) H. rewrite (best_end_no_best w H) in HA. destruct HJ as (HI & _).
+  destruct (Inv_alt n w HI) as [C P]. destruct (s_alt (w_sc w)) as [|a l] eqn:A; [reflexivity|exfalso].
+  pose proof (chain_pos_lt _ _ _ C P ltac:(discriminate)). lia.
+Qed.
+
 (* a state at the top of a loop is ready for the next call: the cursor run starts at or before the next line start *)
 Lemma JT_post : forall n w, JT n w -> pair_ok (w_runs w) n (best_end w) [] (w_idx w).
 Proof.
@@ -612,11 +624,12 @@ Proof.
     split; [discriminate|intros; congruence].
   - (* Truncated *)
     cbv beta iota zeta in H. injection H as <- <-. assert (Ht : lc_truncating lc = true) by (apply K3; right; reflexivity).
-    assert (X' : JP n (if has_best w3 then w3 else mark_best w3 []) /\ b_attrs (w_br (if has_best w3 then w3 else mark_best w3 [])) = attrs).
+    assert (X' : JP n (if has_best w3 then w3 else mark_best (restore w3) []) /\ b_attrs (w_br (if has_best w3 then w3 else mark_best (restore w3) [])) = attrs).
     { destruct (has_best w3).
       - split; [exact P3|rewrite F3b; congruence].
-      - destruct (JP_mark_best_nil n w3 P3 ltac:(rewrite F3v; rewrite F3s in *; exact LE3)) as [P4 _]. split; [exact P4|].
-        destruct (mark_best_proj w3 []) as (_ & N2 & _). rewrite N2, F3b. congruence. }
+      - destruct (JT_restore n w3 P3) as [P3r _].
+        destruct (JP_mark_best_nil n (restore w3) P3r ltac:(destruct w3; cbn; apply Z.le_refl)) as [P4 _]. split; [exact P4|].
+        destruct (mark_best_proj (restore w3) []) as (_ & N2 & _). rewrite N2, R2, F3b. congruence. }
     split; [tauto|]. split; [intros; congruence|]. split; [tauto|]. split; [discriminate|intros; congruence].
   - (* NewLineBeforeBreak *)
     cbv beta iota zeta in H. rewrite R2, F3b in H. injection H as <- <-.
@@ -775,12 +788,13 @@ Proof.
     split; [discriminate|intros; congruence].
   - (* Truncated *)
     assert (Ht : lc_truncating lc = true) by (apply K3; right; reflexivity).
-    assert (X' : JP n (if has_best w3 then w3 else mark_best w3 []) /\ w_br (if has_best w3 then w3 else mark_best w3 []) = b1
-                 /\ s_save (w_sc (if has_best w3 then w3 else mark_best w3 [])) = s_alt (w_sc w)
-                 /\ w_start (if has_best w3 then w3 else mark_best w3 []) = w_start w).
+    assert (X' : JP n (if has_best w3 then w3 else mark_best (restore w3) []) /\ w_br (if has_best w3 then w3 else mark_best (restore w3) []) = b1
+                 /\ s_save (w_sc (if has_best w3 then w3 else mark_best (restore w3) [])) = s_alt (w_sc w)
+                 /\ w_start (if has_best w3 then w3 else mark_best (restore w3) []) = w_start w).
     { destruct (has_best w3).
       - split; [exact P3|]. auto.
-      - destruct (JP_mark_best_nil n w3 P3 ltac:(rewrite F3v; rewrite F3s in *; exact LE3)) as [P4 _]. split; [exact P4|].
+      - destruct (JT_restore n w3 P3) as [P3r _].
+        destruct (JP_mark_best_nil n (restore w3) P3r ltac:(destruct w3; cbn; apply Z.le_refl)) as [P4 _]. split; [exact P4|].
         destruct w3; cbn in *. auto. }
     destruct X' as (X'1 & X'2 & X'3 & X'4).
     cbv beta iota zeta in H. destruct (policy_never _).
